@@ -256,9 +256,19 @@ class Stack:
         self.sim.trace.append((self.sim.now, self.idx, 'api', 'unsubscribe', cb.cid))
         return self.call(('unsubscribe', self.sim.now, cb.cid), lambda: self.ecu.unsubscribe(cb.fire))
 
-    def add_ca(self, name_value, addr, bypass, accept_all=False):
+    def add_ca(self, name_value, addr, bypass, accept_all=False, own_hook=False):
         import j1939
         cls = j1939.ControllerApplication
+        if own_hook:
+            # an application-defined CA class that overrides the documented hook on_request() and registers that very method
+            # with subscribe_request (harness callback behind it): one callback like any other
+            class HookCA(j1939.ControllerApplication):
+                _hook = None
+
+                def on_request(self, src_address, dest_address, pgn):
+                    if self._hook is not None:
+                        self._hook(src_address, dest_address, pgn)
+            cls = HookCA
         if accept_all:
             # an application-defined CA whose acceptance filter lets everything through (the pattern of the library's own
             # test helper AcceptAllCA): what a CA without an address may do is decided by the handlers, not by this filter
@@ -278,10 +288,21 @@ class Stack:
         self.call(('ca_subscribe', i, cb.cid), lambda: self.cas[i].subscribe(cb.fire))
 
     def ca_subscribe_request(self, i, cb):
+        ca = self.cas[i]
+        if hasattr(type(ca), '_hook') and ca._hook is None:
+            def f():
+                ca._hook = cb.fire
+                ca.subscribe_request(ca.on_request)
+            self.call(('ca_subreq', i, cb.cid), f)
+            return
         self.call(('ca_subreq', i, cb.cid), lambda: self.cas[i].subscribe_request(cb.fire))
 
     def ca_unsubscribe_request(self, i, cid):
         # (a fresh bound-method object of the same callback, as an application's `ca.unsubscribe_request(self.on_request)` is)
+        ca = self.cas[i]
+        if hasattr(type(ca), '_hook') and ca._hook is not None and ca._hook.__self__ is self.cbs[cid]:
+            self.call(('ca_unsubreq', i, cid), lambda: ca.unsubscribe_request(ca.on_request))
+            return
         self.call(('ca_unsubreq', i, cid), lambda: self.cas[i].unsubscribe_request(self.cbs[cid].fire))
 
     # ------------------------------------------------------------------ state summary
